@@ -23,6 +23,7 @@ import (
 	"hash/fnv"
 	"math"
 	"math/big"
+	"os"
 	"plugin"
 	"reflect"
 	"sort"
@@ -48,6 +49,38 @@ func c19rec(vals ...interface{}) {
 }
 
 var c19Err = errors.New("c19 sentinel error")
+
+// error values whose handling AFTER Run has returned can go wrong (executeFunction: err.Error(), AddTrace)
+type c19PtrErr struct{ msg string }
+
+func (e *c19PtrErr) Error() string { return e.msg } // dereferences the receiver: panics for a nil pointer
+
+type c19BadErr struct{}
+
+func (c19BadErr) Error() string { panic("Error() panics") }
+
+var c19ErrTypedNil error = (*c19PtrErr)(nil)
+var c19ErrBad error = c19BadErr{}
+var c19ErrNilRT error = (*util.RuntimeError)(nil)
+var c19ErrNilRTD error = (*util.RuntimeErrorWithDetail)(nil)
+var c19ErrRT error = &util.RuntimeError{Source: "c19", Type: util.ErrRuntimeError, Detail: "a proper runtime error"}
+
+// c19ErrToken: the canonical token of one of the harness's error values ("" = not one of them)
+func c19ErrToken(e error) string {
+	switch {
+	case e == c19Err:
+		return "e"
+	case e == c19ErrTypedNil:
+		return "en"
+	case e == c19ErrBad:
+		return "eb"
+	case e == c19ErrRT:
+		return "er"
+	case e == c19ErrNilRT, e == c19ErrNilRTD:
+		return "ez"
+	}
+	return ""
+}
 
 type c19U8 uint8
 type c19F32 float32
@@ -114,9 +147,20 @@ func c19Synthetic() []c19Fn {
 		{"z_f32", func() float32 { c19rec(); return 1.5 }, "k:g:3ff8000000000000"},
 		{"z_iface_int", func() interface{} { c19rec(); return 5 }, "k:i:int:5"},
 		{"z_iface_nil", func() interface{} { c19rec(); return nil }, "k:z"},
+		{"z_iface_f32", func() interface{} { c19rec(); return float32(1.5) }, "k:g:3ff8000000000000"},
+		{"z_iface_u8", func() (interface{}, string) { c19rec(); return uint8(200), "a" }, "k:i:uint8:200|s:61"},
+		{"z_iface_str", func() interface{} { c19rec(); return "a" }, "k:s:61"},
+		{"z_f32_tiny", func() float32 { c19rec(); return math.SmallestNonzeroFloat32 }, "k:g:36a0000000000000"},
+		{"z_f64_negzero", func() float64 { c19rec(); return math.Copysign(0, -1) }, "k:n:8000000000000000"},
 		// trailing error
 		{"r_err_nil", func() error { c19rec(); return nil }, "k:z"},
 		{"r_err", func() error { c19rec(); return c19Err }, "k:e"},
+		{"r_err_typednil", func() error { c19rec(); var e *c19PtrErr; return e }, "k:en"},
+		{"r_err_badmethod", func() error { c19rec(); return c19BadErr{} }, "k:eb"},
+		{"r_err_nilrt", func() error { c19rec(); var e *util.RuntimeError; return e }, "k:ez"},
+		{"r_err_nilrtd", func() (int, error) { c19rec(); var e *util.RuntimeErrorWithDetail; return 1, e }, "k:i:int:1|ez"},
+		{"r_err_rt", func() error { c19rec(); return c19ErrRT }, "k:er"},
+		{"r_int_err_typednil", func(x int) (int, error) { c19rec(x); return x, c19ErrTypedNil }, "echo+en"},
 		{"r_int_err_nil", func(x int) (int, error) { c19rec(x); return x, nil }, "echo+z"},
 		{"r_int_err", func(x int) (int, error) { c19rec(x); return x, c19Err }, "echo+e"},
 		{"r_2_err_nil", func() (int, string, error) { c19rec(); return 5, "a", nil }, "k:i:int:5|s:61|z"},
@@ -200,6 +244,11 @@ func c19Plugins() []*c19PluginFn {
 		{"null", "k:z|z", func(a []interface{}) (interface{}, error) { c19rec(a...); return nil, nil }},
 		{"err", "k:z|e", func(a []interface{}) (interface{}, error) { c19rec(a...); return nil, c19Err }},
 		{"valerr", "k:s:61|e", func(a []interface{}) (interface{}, error) { c19rec(a...); return "a", c19Err }},
+		{"int", "k:i:int:7|z", func(a []interface{}) (interface{}, error) { c19rec(a...); return 7, nil }},
+		{"f32", "k:g:3ff8000000000000|z", func(a []interface{}) (interface{}, error) { c19rec(a...); return float32(1.5), nil }},
+		{"lenint", "plenint", func(a []interface{}) (interface{}, error) { c19rec(a...); return len(a), nil }},
+		{"errtypednil", "k:z|en", func(a []interface{}) (interface{}, error) { c19rec(a...); return nil, c19ErrTypedNil }},
+		{"panicnil", "panic", func(a []interface{}) (interface{}, error) { c19rec(a...); panic(nil) }},
 		{"panic", "panic", func(a []interface{}) (interface{}, error) { c19rec(a...); panic("boom") }},
 		{"panicerr", "panic", func(a []interface{}) (interface{}, error) { c19rec(a...); panic(c19Err) }},
 		{"nilmap", "panic", func(a []interface{}) (interface{}, error) { c19rec(a...); nilMap["a"] = 1; return nil, nil }},
@@ -249,6 +298,8 @@ type c19Val struct {
 }
 
 var c19Universe []c19Val
+var c19Numbers []int // indices of the numbers in the universe
+var c19Core int // the first c19Core values are the core universe (exhaustive for the longer vectors)
 var c19CanonIdx = map[string]int{}
 var c19DirectScope eparser.Scope
 var c19FuncObj interface{}
@@ -269,20 +320,30 @@ func c19BuildUniverse() {
 		// beyond the stated universe: negative out of range, fraction below zero, 2^63, -Inf
 		-129.0, -0.5, 9223372036854775808.0, math.Inf(-1),
 		// 1.5*2^63: in the range of the 64-bit unsigned kinds only
-		13835058055282163712.0}
+		13835058055282163712.0,
+		// the kind boundaries and float32 rounding (review E4)
+		40000.0, 2147483647.0, 65536.0, 4294967296.0, 18446744073709551616.0, -2147483649.0, -9223372036854775808.0,
+		0.1, 16777217.0, 3.4028235677973366e38, math.Inf(1), math.Copysign(0, -1), 1e-40, 1e-46}
+	c19Core = 28
 	c19Universe = nil
 	lits := []string{"null", "true", "false", "0", "-1", "1", "1.5", "127", "128", "255", "256",
 		"2147483648", "9007199254740992", "", "", `""`, `"a"`, `"1"`,
 		"[]", "[1]", "{}", `{"a":1}`, "",
-		"-129", "-0.5", "", "", "13835058055282163712"}
+		"-129", "-0.5", "", "", "13835058055282163712",
+		"40000", "2147483647", "65536", "4294967296", "18446744073709551616", "-2147483649", "-9223372036854775808",
+		"0.1", "16777217", "", "", "", "", ""}
 	if len(lits) != len(vals) {
 		panic("C19 universe: literals and values out of step")
 	}
 	for i, v := range vals {
 		c19Universe = append(c19Universe, c19Val{v, fmt.Sprintf("u%d", i), lits[i]})
 	}
+	c19Numbers = nil
 	for i, u := range c19Universe {
 		c19CanonIdx[c19Canon(u.v, 0)] = i
+		if _, ok := u.v.(float64); ok {
+			c19Numbers = append(c19Numbers, i)
+		}
 	}
 	c19DirectScope = newGlobalScope()
 }
@@ -345,8 +406,10 @@ func c19Canon(v interface{}, depth int) string {
 	if v == c19FuncObj {
 		return "f"
 	}
-	if e, ok := v.(error); ok && e == c19Err {
-		return "e"
+	if e, ok := v.(error); ok {
+		if tok := c19ErrToken(e); tok != "" {
+			return tok
+		}
 	}
 	// a value of a defined type of primitive kind: N<type id>(<the value as its underlying type>)
 	rv := reflect.ValueOf(v)
@@ -502,6 +565,7 @@ type c19Target struct {
 	sig     string
 	body    string
 	plugin  bool // registered through AddStdlibPluginFunc / LoadStdlibPlugin
+	fv      reflect.Value // generated stdlib: the wrapped Go function itself
 }
 
 var c19Targets []*c19Target
@@ -552,7 +616,7 @@ func c19Setup() {
 		// the wrapped reflect.Value is the first (unexported) field of the adapter
 		fld := reflect.ValueOf(ad).Elem().Field(0)
 		fv := *(*reflect.Value)(unsafe.Pointer(fld.UnsafeAddr()))
-		t := &c19Target{name: name, adapter: ad, ftype: fv.Type(), sig: c19Sig(fv.Type()), body: "opaque"}
+		t := &c19Target{name: name, adapter: ad, ftype: fv.Type(), sig: c19Sig(fv.Type()), body: "opaque", fv: fv}
 		c19Targets = append(c19Targets, t)
 	}
 	for _, t := range c19Targets {
@@ -587,7 +651,9 @@ func c19Args(toks []string) []int {
 	for _, tok := range toks {
 		if strings.HasPrefix(tok, "n:") {
 			tok = tok[:strings.LastIndex(tok, ":")]
-			c19Masked = c19Masked || strings.HasSuffix(toks[len(idx)], "!")
+			c19Marks = append(c19Marks, strings.HasSuffix(toks[len(idx)], "!"))
+		} else {
+			c19Marks = append(c19Marks, false)
 		}
 		found, ok := c19CanonIdx[tok]
 		if !ok {
@@ -598,14 +664,23 @@ func c19Args(toks []string) []int {
 	return idx
 }
 
-// c19Masked: some argument of the current case is converted out of range — where the function is
-// reached, the values (returned and received) are implementation-defined and only the outcome class is compared.
-var c19Masked bool
+// c19Marks: per argument of the current case, is it converted out of its parameter kind's range? There the
+// value is implementation-defined: the received value at that position, and the returned one where the body
+// hands the argument back, are printed as "~".
+var c19Marks []bool
+
+func c19Mark(i int) bool { return i < len(c19Marks) && c19Marks[i] }
+
+func c19AnyMark() bool {
+	for _, m := range c19Marks {
+		if m {
+			return true
+		}
+	}
+	return false
+}
 
 func c19RecvStr(opaque bool) string {
-	if c19Reached && c19Masked {
-		return "recv=~"
-	}
 	if !c19Reached {
 		if opaque {
 			return "recv=?" // stdlib functions do not report; the model assumes they were reached iff a value came back
@@ -615,6 +690,9 @@ func c19RecvStr(opaque bool) string {
 	parts := make([]string, len(c19Recv))
 	for i, v := range c19Recv {
 		parts[i] = c19Canon(v, 0)
+		if c19Mark(i) {
+			parts[i] = "~"
+		}
 	}
 	return "recv=[" + strings.Join(parts, ";") + "]"
 }
@@ -645,7 +723,74 @@ func c19Eval(src string) (interface{}, error) {
 	return ast.Runtime.Eval(c19Scope(), make(map[string]interface{}), c19Erp.NewThreadID())
 }
 
+// c19StdlibValue: a function of the generated stdlib returned v through the bridge. The same Go function is
+// called directly (reflect) on the arguments converted to its parameter types; both results, converted to ECAL
+// numbers, must be identical (float bits). "?" = identical (what the model, which does not know the body,
+// prints), otherwise the difference. Not compared where an argument is converted out of range.
+func c19StdlibValue(t *c19Target, idx []int, v interface{}) string {
+	if c19AnyMark() || !t.fv.IsValid() || len(idx) != t.ftype.NumIn() {
+		return "?"
+	}
+	in := make([]reflect.Value, len(idx))
+	for i, u := range idx {
+		a := reflect.ValueOf(c19Universe[u].v)
+		if !a.IsValid() {
+			return "?"
+		}
+		if a.Kind() == reflect.Float64 {
+			switch t.ftype.In(i).Kind() {
+			case reflect.Int, reflect.Int8, reflect.Int16, reflect.Int32, reflect.Int64,
+				reflect.Uint, reflect.Uint8, reflect.Uint16, reflect.Uint32, reflect.Uint64, reflect.Uintptr,
+				reflect.Float32, reflect.Float64:
+				a = a.Convert(t.ftype.In(i))
+			}
+		}
+		if a.Type() != t.ftype.In(i) {
+			return "?"
+		}
+		in[i] = a
+	}
+	outs := t.fv.Call(in)
+	want := make([]interface{}, len(outs))
+	for i, o := range outs {
+		switch o.Kind() {
+		case reflect.Int, reflect.Int8, reflect.Int16, reflect.Int32, reflect.Int64:
+			want[i] = float64(o.Int())
+		case reflect.Uint, reflect.Uint8, reflect.Uint16, reflect.Uint32, reflect.Uint64, reflect.Uintptr:
+			want[i] = float64(o.Uint())
+		case reflect.Float32, reflect.Float64:
+			want[i] = o.Float()
+		default:
+			want[i] = o.Interface()
+		}
+	}
+	var w interface{} = want
+	if len(want) == 1 {
+		w = want[0]
+	}
+	CountRun("stdlib value compared with a direct call")
+	if g, e := c19Canon(v, 0), c19Canon(w, 0); g != e {
+		return "STDLIB-VALUE-DIFFERS:" + g + "/direct:" + e
+	}
+	return "?"
+}
+
+// c19Run wraps the execution of a case: a panic that escapes the code under test is the result "X" — also a
+// panic(nil) under GODEBUG=panicnil=1, for which recover() returns nil (hence the completion flag).
 func c19Run(payload string) (res string) {
+	finished := false
+	defer func() {
+		if r := recover(); r != nil || !finished {
+			CountRun("escaped panic")
+			res = "X"
+		}
+	}()
+	res = c19RunCase(payload)
+	finished = true
+	return res
+}
+
+func c19RunCase(payload string) (res string) {
 	f := strings.Split(payload, " ")
 	if len(f) > 4 && f[1] == "R" {
 		return c19RunReentry(f[2:])
@@ -655,16 +800,55 @@ func c19Run(payload string) (res string) {
 		return "unknown-function"
 	}
 	mode := f[1]
-	c19Masked = false
+	c19Marks = nil
 	idx := c19Args(f[4:])
+	// d / i / t: the same under GODEBUG=panicnil=1 — the semantics of panic(nil) in every binary whose main
+	// module declares go < 1.21 (as /repo's go.mod does): recover() returns nil. The runtime re-reads the
+	// setting when the environment changes.
+	if mode == strings.ToLower(mode) {
+		old := os.Getenv("GODEBUG")
+		os.Setenv("GODEBUG", "panicnil=1")
+		defer os.Setenv("GODEBUG", old)
+		mode = strings.ToUpper(mode)
+	}
 	opaque := t.body == "opaque"
 	c19Reached, c19Recv = false, nil
 	CountRun("mode " + mode)
 	val := func(v interface{}) string {
 		if opaque {
-			return "?"
+			return c19StdlibValue(t, idx, v)
 		}
-		if c19Masked {
+		// which returned positions hand a marked argument back (same rule as the model driver)
+		var mask []bool
+		switch {
+		case t.body == "echo" || strings.HasPrefix(t.body, "echo+"):
+			mask = c19Marks
+		case t.body == "vlen" && t.ftype != nil:
+			n := t.ftype.NumIn() - 1
+			if n > len(c19Marks) {
+				n = len(c19Marks)
+			}
+			mask = c19Marks[:n]
+		}
+		m := func(i int) bool { return i < len(mask) && mask[i] }
+		nres := 0
+		if t.ftype != nil {
+			nres = t.ftype.NumOut()
+			if nres > 0 && t.ftype.Out(nres-1) == c19ErrorType {
+				nres--
+			}
+		}
+		if l, ok := v.([]interface{}); ok && nres != 1 {
+			parts := make([]string, len(l))
+			for i, e := range l {
+				parts[i] = c19Canon(e, 1)
+				if m(i) {
+					parts[i] = "~"
+				}
+			}
+			return "l[" + strings.Join(parts, ",") + "]"
+		}
+		if m(0) {
 			return "~"
 		}
 		return c19Canon(v, 0)
@@ -674,16 +858,10 @@ func c19Run(payload string) (res string) {
 		for i, u := range idx {
 			args[i] = c19Universe[u].v
 		}
-		defer func() {
-			if r := recover(); r != nil {
-				CountRun("escaped panic")
-				res = "X"
-			}
-		}()
 		ret, err := t.adapter.Run("c19", c19DirectScope, map[string]interface{}{}, 0, args)
 		if err != nil {
 			who := "b"
-			if err == c19Err {
+			if c19ErrToken(err) != "" {
 				who = "f"
 			}
 			r := c19RecvStr(false)
@@ -751,16 +929,18 @@ func c19Gen(g *Gen) {
 		}
 		g.Emit(c19Payload(t, mode, idx))
 	}
-	var exh func(t *c19Target, mode string, prefix []int, n int)
-	exh = func(t *c19Target, mode string, prefix []int, n int) {
+	// exhaustive over the first `lim` universe values
+	var exhL func(t *c19Target, mode string, prefix []int, n, lim int)
+	exhL = func(t *c19Target, mode string, prefix []int, n, lim int) {
 		if len(prefix) == n {
 			emit(t, mode, append([]int(nil), prefix...))
 			return
 		}
-		for u := 0; u < nU; u++ {
-			exh(t, mode, append(prefix, u), n)
+		for u := 0; u < lim; u++ {
+			exhL(t, mode, append(prefix, u), n, lim)
 		}
 	}
+	exh := func(t *c19Target, mode string, prefix []int, n int) { exhL(t, mode, prefix, n, nU) }
 	sample := func(t *c19Target, mode string, n, count int) {
 		for c := 0; c < count; c++ {
 			idx := make([]int, n)
@@ -768,7 +948,7 @@ func c19Gen(g *Gen) {
 				idx[i] = g.R.Intn(nU)
 				// bias towards numbers so that longer vectors get past the first parameters
 				if g.R.Intn(3) != 0 {
-					idx[i] = 3 + g.R.Intn(11)
+					idx[i] = c19Numbers[g.R.Intn(len(c19Numbers))]
 				}
 			}
 			emit(t, mode, idx)
@@ -779,15 +959,47 @@ func c19Gen(g *Gen) {
 	if g.Thorough() {
 		dExh, iExh, dSample, iSample = 3, 2, 600, 300
 	}
+	// panic(nil) under both semantics: D/I/T run with the harness's own (go >= 1.21: an ordinary panic),
+	// d/i/t with GODEBUG=panicnil=1 (recover() returns nil) — there the body is described as "panicnil"
+	for _, name := range []string{"c19.xpanicnil", "c19p.fnpanicnil", "c19.xpanicstr", "c19.zint", "c19p.fnconst"} {
+		t := c19ByName[name]
+		if t == nil {
+			panic("no target " + name)
+		}
+		tt := *t
+		if strings.HasSuffix(name, "panicnil") {
+			tt.body = "panicnil"
+		}
+		for _, mode := range []string{"d", "i", "t"} {
+			exhL(&tt, mode, nil, 0, nU)
+			exhL(&tt, mode, nil, 1, c19Core)
+		}
+	}
+	// all vectors up to length 2 over the whole universe (directly), the longer ones over the core universe
 	for n := 0; n <= dExh; n++ { // small cases first
 		for _, t := range c19Targets {
-			exh(t, "D", nil, n)
+			if n <= 2 {
+				exh(t, "D", nil, n)
+			} else {
+				exhL(t, "D", nil, n, c19Core)
+			}
 		}
 	}
 	for n := 0; n <= iExh; n++ {
 		for _, t := range c19Targets {
-			exh(t, "I", nil, n)
-			exh(t, "T", nil, n)
+			lim := nU
+			if n >= 2 {
+				lim = c19Core
+				if t.body == "opaque" && !g.Thorough() {
+					// generated stdlib through the interpreter: length 2 sampled in the quick tier
+					// (exhaustive directly, where the values are compared with a direct call)
+					sample(t, "I", n, 60)
+					sample(t, "T", n, 60)
+					continue
+				}
+			}
+			exhL(t, "I", nil, n, lim)
+			exhL(t, "T", nil, n, lim)
 		}
 	}
 	// directed: functions with three or more parameters get every vector of numbers of their own length
